@@ -137,9 +137,9 @@ pub fn run(em: &mut Emit, thorough: bool, seed: u64) {
     }
     // long and deep values: sizes around buffer / chunk thresholds (base64 groups of three bytes
     // included), nesting to depth 40
-    for n in (0..=70usize).chain([127, 128, 129, 255, 256, 257, 1000, 1001, 1002]) {
+    for n in (0..=70usize).chain([127, 128, 129, 255, 256, 257, 1000, 1001, 1002, 1023, 1024, 1025, 1026, 2047, 2048, 2049, 3071, 3072, 3073, 4096, 4097, 8191, 8193, 65536, 65537, 100_001]) {
         emit_value(em, &Value::Bytes(Arc::new((0..n).map(|i| (i * 7 % 256) as u8).collect())), "long");
-        if n > 12 && !(15..=17).contains(&n) && !(31..=33).contains(&n) && !(63..=65).contains(&n) && n < 127 {
+        if (n > 12 && !(15..=17).contains(&n) && !(31..=33).contains(&n) && !(63..=65).contains(&n) && n < 127) || n > 1002 {
             continue;
         }
         emit_value(em, &Value::List(Arc::new((0..n).map(|i| Value::Int(i as i64)).collect())), "long");
